@@ -103,6 +103,11 @@ Proof.
   - rewrite eusable_erase by exact Hn. destruct (eusable e (idx w)); auto.
   - rewrite eusable_erase by exact Hn. destruct (eusable e (idx w)); auto.
   - rewrite eusable_erase by exact Hn. destruct (eusable e (idx w)); auto.
+  - rewrite eusable_erase by exact Hn. destruct j as [a|]; [rewrite eusable_erase by exact Hn|];
+      destruct (eusable e (idx w) && _); auto.
+  - rewrite eusable_erase by exact Hn. destruct (eusable e (idx w)); auto.
+  - rewrite eusable_erase by exact Hn. destruct (eusable e (idx w)); auto.
+  - auto.
   - auto.
 Qed.
 
